@@ -92,7 +92,11 @@ value), expected back ends, `fixed_size_in_bits`, `maximum_bits`, `is_signed` an
 ranges, `addressable_unit_size`, byte order (needed / not allowed / `Null`, `$default`
 propagation), `[requires]` placement, bits (fixed, ≤ 64, no byte-oriented members), arrays,
 explicit sizes, width requirements (`static_requirements` evaluated), reserved words, static
-references.  Outside: the 64-bit expression-range gate (C05).
+references, and the 64-bit expression-range gate (C05's `Emboss.Bounds.gate` on the annotated
+top-level expressions of each module, user-visible and deferred/synthetic ones).
+`check` reports the errors in the front end's own order (pass by pass, traversal by traversal:
+`Forest.walk`); the iff goes through the per-entity regrouping (`passConstraints_nil` & co. in
+Lemmas/ConstraintsOrder.lean); the order itself is tied by the correspondence run.
 -/
 theorem C14_accept_iff_realisable_partial (p : Program)
     (wf : ∀ c ∈ allTypes p, TypeWF c.2) : check p = [] ↔ Realisable p :=
@@ -118,6 +122,32 @@ example : check exGood = [] := by decide +kernel
 example : Realisable exGood :=
   (C14_accept_iff_realisable_partial exGood exGood_wf).1 (by decide +kernel)
 example : check exNoByteOrder = [.boRequired] := by decide +kernel
+
+/-! ### Reporting order and the 64-bit gate (tests on the model; tied by the correspondence) -/
+
+/-- `struct Aa: 0 [+2] UInt int` (reserved name) followed by `struct Bb: 0 [+9] UInt x`
+(72-bit `UInt`). -/
+def exOrder : Program :=
+  [{ attrs := [⟨"byte_order", "", true, .str "LittleEndian"⟩],
+     types := .node { exStruct [{ exField 2 [] with name := "int" }] [] with id := 1, name := "Aa" } .nil
+       (.node { exStruct [exField 9 []] [] with id := 2, name := "Bb" } .nil .nil),
+     staticRefs := [] }, exPrelude]
+
+/-- The errors come traversal by traversal, not type by type: the width error of the LATER
+struct (traversal `[Structure, Type]`) precedes the reserved name of the earlier one
+(traversal `[Field]`). -/
+example : check exOrder = [.reqNotMet "UInt", .reservedField] := by decide +kernel
+
+/-- A module with one gated expression whose range is 0 .. 2^64 (`x + 1`, `x` a 64-bit `UInt`):
+user-visible → reported by `check_constraints`; synthetic → deferred, still rejected. -/
+def exGate (syn : Bool) : Program :=
+  [{ exGoodMain with
+     gated := [(syn, .node true (.int ⟨.fin 1, .fin 18446744073709551616, .fin 1, .fin 0⟩)
+                 [.node false (.int ⟨.fin 0, .fin 18446744073709551615, .fin 1, .fin 0⟩) [],
+                  .node false (.int ⟨.fin 1, .fin 1, .inf, .fin 1⟩) []])] }, exPrelude]
+
+example : check (exGate false) = [.gate .rangeTooBig] ∧ check (exGate true) = [.gate .rangeTooBig] ∧
+    passConstraints (exGate true) = [] := by decide +kernel
 
 /-! ### The regenerated prelude requirements are the documented ranges -/
 
